@@ -115,7 +115,7 @@ class Recon:
                 table = ctx.cfg.rd_out[at] if after else ctx.cfg.rd_in[at]
                 defs = table.get(pseudo)
                 if defs and 0 not in binds:
-                    return self._from_defs(ctx, pseudo, defs, at, binds, depth)
+                    return self._from_defs(ctx, pseudo, defs, at, binds, depth, after)
             base = rec(node.value)
             return self.attr(base, node.attr, ctx, depth)
         if isinstance(node, ast.BinOp):
@@ -218,7 +218,7 @@ class Recon:
             table = (ctx.cfg.rd_out[at] if after else ctx.cfg.rd_in[at]) if at is not None else {}
             defs = table.get(name)
             if defs:
-                return self._from_defs(ctx, name, defs, at, binds, depth)
+                return self._from_defs(ctx, name, defs, at, binds, depth, after)
             return self.self_attr(ctx.ci.key, name.split(".", 1)[1], depth) if ctx.ci is not None else S.unk(name)
         defs = None
         if at is not None:
@@ -231,7 +231,7 @@ class Recon:
                 outside = frozenset(d for d in defs if d.node not in body)
                 if outside:
                     defs = outside
-            return self._from_defs(ctx, name, defs, at, binds, depth)
+            return self._from_defs(ctx, name, defs, at, binds, depth, after)
         return self.global_name(ctx, name)
 
     def global_name(self, ctx: FuncCtx, name: str):
@@ -266,7 +266,7 @@ class Recon:
         except NotConst:
             return S.unk("modlevel:" + ast.unparse(v)[:60])
 
-    def _from_defs(self, ctx: FuncCtx, name, defs, at: Node, binds, depth):
+    def _from_defs(self, ctx: FuncCtx, name, defs, at: Node, binds, depth, after=False):
         defs = sorted(defs, key=lambda d: d.node.id)
         if len(defs) == 1:
             return self._def(ctx, defs[0], binds, depth)
@@ -293,14 +293,28 @@ class Recon:
                             if all(d.node not in body for d in pdefs):
                                 entry += [self._def(ctx, d, binds, depth + 1) for d in sorted(pdefs, key=lambda d: d.node.id)]
                             else:
-                                entry.append(self._from_defs(ctx, name, pdefs, p, binds, depth + 1))
+                                entry.append(self._from_defs(ctx, name, pdefs, p, binds, depth + 1, True))
                     finally:
                         self._stack.pop()
                 if not entry:
                     entry = [self._def(ctx, d, binds, depth + 1) for d in outside]
                 entry = _dedup(entry)
                 e = entry[0] if len(entry) == 1 else ("join", tuple(sorted(entry, key=repr)))
-                return ("phi", ctx.qual, ctx.loop_ordinal(loop), e, name)
+                phi = ("phi", ctx.qual, ctx.loop_ordinal(loop), e, name)
+                # definitions made earlier in THIS round of the loop (they reach `at` without passing the header): the value
+                # is what those leave behind, and the loop-carried value only on the paths that skip them
+                fwd = [d for d in inside if d.stmt is not None and hdr is not None and self._reaches_forward(ctx, d.node, at, hdr, after)]
+                if fwd and not any(k[:3] == (ctx.qual, "fwd-gate", id(loop)) and k[3] == name for k in self._stack if isinstance(k, tuple) and len(k) == 4):
+                    self._stack.append((ctx.qual, "fwd-gate", id(loop), name))
+                    try:
+                        marker = object()
+                        items = [(loop, marker)] + [(d.stmt, d) for d in fwd]
+                        g = self._gate(ctx, items, ctx.func, lambda d_: phi if d_ is marker else self._def(ctx, d_, binds, depth + 1), binds, depth)
+                    finally:
+                        self._stack.pop()
+                    if g is not None:
+                        return g
+                return phi
         gated = self._gate(ctx, [(d.stmt, d) for d in defs if d.stmt is not None], ctx.func,
                            lambda d: self._def(ctx, d, binds, depth + 1), binds, depth) if all(d.stmt is not None for d in defs) else None
         if gated is not None:
@@ -309,6 +323,28 @@ class Recon:
         if len(alts) == 1:
             return alts[0]
         return ("join", tuple(sorted(alts, key=repr)))
+
+    def _reaches_forward(self, ctx: FuncCtx, src: Node, dst: Node, hdr: Node, after=False) -> bool:
+        """A definition at src reaches the use at dst without passing the loop header (a definition in the same node
+        reaches only the value *after* that node)."""
+        if src is dst:
+            return bool(after)
+        key = ("fwd", id(src), id(hdr))
+        cache = ctx.__dict__.setdefault("_fwd_cache", {})
+        seen = cache.get(key)
+        if seen is None:
+            seen = set()
+            stack = [s_ for s_, _lab in src.succ if s_ is not hdr]
+            while stack:
+                n = stack.pop()
+                if n in seen:
+                    continue
+                seen.add(n)
+                for s_, _lab in n.succ:
+                    if s_ is not hdr:
+                        stack.append(s_)
+            cache[key] = seen
+        return dst in seen
 
     def _gate(self, ctx: FuncCtx, items, func, value_of, binds, depth):
         """Gated join: if the definitions sit in opposite arms of an if/else (recursively), build a conditional
@@ -351,43 +387,80 @@ class Recon:
             if a == b:
                 return a
             return ("ite", test, a, b)
-        # second shape: some definitions sit before an `if` and the others inside it (`x = a` / `if c: x = b`):
-        # the value is ite(c, <what the arm leaves>, <what was there before>)
-        chains = [arms(st) for st, _ in items]
-        cands = {}
-        for ch in chains:
-            for i, _side in ch:
-                cands[id(i)] = i
-        for ifnode in sorted(cands.values(), key=lambda n: (n.lineno, n.col_offset)):
-            sides = []
-            for ch in chains:
-                sd = [side for i, side in ch if i is ifnode]
-                sides.append(sd[0] if sd else None)
-            if all(x is not None for x in sides) or all(x is None for x in sides):
-                continue
-            outside = [it for it, sd in zip(items, sides) if sd is None]
-            if any(getattr(it[0], "lineno", 0) >= ifnode.lineno for it in outside):
-                return None
+        # general shape: run through the statements of the smallest block that holds all definitions, in order:
+        # a direct assignment replaces the value, an `if` selects between what its arms leave behind
+        return self._gate_block(ctx, items, func, value_of, binds, depth)
 
-            def arm(arm_items, arm_stmts):
-                if not arm_items:
-                    return self._gate(ctx, outside, func, value_of, binds, depth + 1)
-                direct = [it for it in arm_items if any(it[0] is s_ for s_ in arm_stmts)]
-                if direct:
-                    last = max(direct, key=lambda it: it[0].lineno)
-                    rest = [it for it in arm_items if it[0].lineno >= last[0].lineno]
-                    return self._gate(ctx, rest, func, value_of, binds, depth + 1)
-                return self._gate(ctx, outside + arm_items, func, value_of, binds, depth + 1)
+    def _gate_block(self, ctx: FuncCtx, items, func, value_of, binds, depth):
+        if depth > MAX_DEPTH:
+            return None
+        by_stmt = {}
+        fallback = None
+        for st, payload in items:
+            if isinstance(st, (ast.While, ast.For)):
+                fallback = (st, payload)  # the value carried into this round of the loop
+            else:
+                by_stmt[id(st)] = payload
+        if not by_stmt:
+            return value_of(fallback[1]) if fallback else None
+        stmts = [st for st, _ in items if not isinstance(st, (ast.While, ast.For))]
 
-            a = arm([it for it, sd in zip(items, sides) if sd is True], ifnode.body)
-            b = arm([it for it, sd in zip(items, sides) if sd is False], ifnode.orelse)
-            if a is None or b is None:
-                return None
-            test = self._e(ctx, ifnode.test, ctx.cfg.node_of.get(ifnode), binds, False, depth + 1)
-            if a == b:
-                return a
-            return ("ite", test, a, b)
-        return None
+        def holds(node):
+            return [st for st in stmts if any(x is st for x in ast.walk(node))]
+
+        if fallback is not None:
+            block = fallback[0].body
+        else:
+            # smallest enclosing block of all definitions
+            block = func.body
+            changed = True
+            while changed:
+                changed = False
+                for st in block:
+                    if len(holds(st)) == len(stmts) and id(st) not in by_stmt:
+                        for fld in ("body", "orelse", "finalbody"):
+                            sub = getattr(st, fld, None)
+                            if isinstance(sub, list) and sub and all(any(x is d for s2 in sub for x in ast.walk(s2)) for d in stmts):
+                                block = sub
+                                changed = True
+                                break
+                        break
+        MISSING = object()
+
+        def run(block, cur):
+            for st in block:
+                if id(st) in by_stmt:
+                    cur = value_of(by_stmt[id(st)])
+                    continue
+                inside = holds(st)
+                if not inside:
+                    continue
+                if isinstance(st, ast.If):
+                    a = run(st.body, cur)
+                    b = run(st.orelse, cur)
+                    if a is None or b is None:
+                        return None
+                    if a is MISSING or b is MISSING:
+                        if a is MISSING and b is MISSING:
+                            cur = MISSING
+                            continue
+                        return None
+                    if a == b:
+                        cur = a
+                    else:
+                        test = self._e(ctx, st.test, ctx.cfg.node_of.get(st), binds, False, depth + 1)
+                        cur = ("ite", test, a, b)
+                elif isinstance(st, ast.With):
+                    cur = run(st.body, cur)
+                    if cur is None:
+                        return None
+                else:
+                    return None  # definitions inside a nested loop / try: not a simple selection
+            return cur
+
+        start = value_of(fallback[1]) if fallback is not None else MISSING
+        r = run(block, start)
+        return None if r is MISSING else r
 
     def _def(self, ctx: FuncCtx, d: Def, binds, depth):
         key = (ctx.qual, id(d))
